@@ -55,12 +55,105 @@ def parseToks (nextId : Nat) (s : String) : Option (List Nat) :=
     if inner.isEmpty then some [] else (inner.splitOn ",").mapM (parseTok nextId)
   | _ => none
 
+def showSvc : Svc → String
+  | .good => "Good"
+  | .badNodeIdUnknown => "BadNodeIdUnknown"
+  | .badSourceNodeIdInvalid => "BadSourceNodeIdInvalid"
+  | .badTargetNodeIdInvalid => "BadTargetNodeIdInvalid"
+  | .badReferenceTypeIdInvalid => "BadReferenceTypeIdInvalid"
+  | .badNodeClassInvalid => "BadNodeClassInvalid"
+  | .badDuplicateReferenceNotAllowed => "BadDuplicateReferenceNotAllowed"
+
 def showFlag (r : Res) : String :=
   match r with
-  | .flag b => "ok " ++ boolStr b
-  | .unit => "ok"
+  | .mres (.flag b) => "ok " ++ boolStr b
+  | .mres .unit => "ok"
+  | .mres (.flags bs) => "ok [" ++ ",".intercalate (bs.map boolStr) ++ "]"
+  | .mres (.svc st) => "ok " ++ showSvc st
   | .panic => "panic"
   | _ => "bad-op"
+
+/-- node ids of a case live below the namespace-0 offset of the model -/
+def nidOk (n : Nat) : Bool := 1 ≤ n && n < 100000
+
+def storedTyOk (t : Nat) : Bool := tyOk t && t != 45
+
+/-- `s:t:ty` -/
+def parseTriple (s : String) : Option (Nat × Nat × Nat) :=
+  match s.splitOn ":" with
+  | [a, b, c] => match a.toNat?, b.toNat?, c.toNat? with
+    | some a, some b, some c => some (a, b, c)
+    | _, _, _ => none
+  | _ => none
+
+def parseList {α : Type} (f : String → Option α) (s : String) : Option (List α) :=
+  match s.toList with
+  | '[' :: r =>
+    let inner := String.ofList r.dropLast
+    if inner.isEmpty then some [] else (inner.splitOn ",").mapM f
+  | _ => none
+
+/-- parses and validates a mutation op -/
+def parseMut (toks : List String) : Option Mut :=
+  match toks with
+  | ["node", id, cls] =>
+    match id.toNat?, cls.toNat? with
+    | some id, some cls => if nidOk id ∧ clsOk cls then some (.node id cls) else none
+    | _, _ => none
+  | ["nodep", id, cls, parent, ty] =>
+    match id.toNat?, cls.toNat?, parent.toNat?, ty.toNat? with
+    | some id, some cls, some parent, some ty =>
+      if nidOk id ∧ clsOk cls ∧ 1 ≤ parent ∧ parent < id ∧ storedTyOk ty then some (.nodep id cls parent ty) else none
+    | _, _, _, _ => none
+  | ["ref", a, b, ty] =>
+    match a.toNat?, b.toNat?, ty.toNat? with
+    | some a, some b, some ty => if 1 ≤ a ∧ a < b ∧ nidOk b ∧ storedTyOk ty then some (.ref a b ty) else none
+    | _, _, _ => none
+  | ["refs", l] =>
+    match parseList parseTriple l with
+    | some l => if l.all (fun r => 1 ≤ r.1 && r.1 < r.2.1 && nidOk r.2.1 && storedTyOk r.2.2) then some (.refs l) else none
+    | none => none
+  | ["settype", id, t] =>
+    match id.toNat?, t.toNat? with
+    | some id, some t => if nidOk id ∧ 1 ≤ t ∧ t < 100000 then some (.settype id t) else none
+    | _, _ => none
+  | ["folder", id, parent] =>
+    match id.toNat?, parent.toNat? with
+    | some id, some parent => if nidOk id ∧ 1 ≤ parent ∧ parent < id then some (.folder id parent) else none
+    | _, _ => none
+  | ["addvars", parent, ids] =>
+    match parent.toNat?, parseList String.toNat? ids with
+    | some parent, some ids =>
+      if 1 ≤ parent ∧ ids.all (fun i => parent < i && nidOk i) then some (.addvars parent ids) else none
+    | _, _ => none
+  | ["delref", a, b, ty] =>
+    match a.toNat?, b.toNat?, ty.toNat? with
+    | some a, some b, some ty => if nidOk a ∧ nidOk b ∧ tyOk ty then some (.delref a b ty) else none
+    | _, _, _ => none
+  | ["delnode", id, dtr] =>
+    match id.toNat?, parseBool? dtr with
+    | some id, some dtr => if nidOk id then some (.delnode id dtr) else none
+    | _, _ => none
+  | ["sdelnode", id, dtr] =>
+    match id.toNat?, parseBool? dtr with
+    | some id, some dtr => if nidOk id then some (.sdelnode id dtr) else none
+    | _, _ => none
+  | ["sdelref", a, b, ty, fwd, bidir] =>
+    match a.toNat?, b.toNat?, ty.toNat?, parseBool? fwd, parseBool? bidir with
+    | some a, some b, some ty, some fwd, some bidir =>
+      if nidOk a ∧ nidOk b ∧ a ≠ b ∧ tyOk ty then some (.sdelref a b ty fwd bidir) else none
+    | _, _, _, _, _ => none
+  | ["saddref", a, b, ty, fwd, cls] =>
+    match a.toNat?, b.toNat?, ty.toNat?, parseBool? fwd, cls.toNat? with
+    | some a, some b, some ty, some fwd, some cls =>
+      if nidOk a ∧ nidOk b ∧ (if fwd then a < b else b < a) ∧ storedTyOk ty ∧ (cls = 0 ∨ clsOk cls)
+      then some (.saddref a b ty fwd cls) else none
+    | _, _, _, _, _ => none
+  | _ => none
+
+def isMutOp (t : String) : Bool :=
+  ["node", "nodep", "ref", "refs", "settype", "folder", "addvars", "delref", "delnode", "sdelnode", "sdelref",
+   "saddref"].contains t
 
 def zipResults (exact : List Nat) : List Nat → List BrowseResult → List String × List Nat
   | id :: ids, r :: rs =>
@@ -74,30 +167,6 @@ def dstep (s : DState) (toks : List String) : DState × String :=
   let run (op : Op) : St × Res := step s.st op
   match toks with
   | ["reset"] => ({ st := init, exact := [] }, "ok")
-  | ["node", id, cls] =>
-    match id.toNat?, cls.toNat? with
-    | some id, some cls =>
-      if id = 0 ∨ !clsOk cls then (s, "bad-op") else
-      let (st, r) := run (.node id cls); ({ s with st := st }, showFlag r)
-    | _, _ => (s, "bad-op")
-  | ["ref", a, b, ty] =>
-    match a.toNat?, b.toNat?, ty.toNat? with
-    | some a, some b, some ty =>
-      if a = 0 ∨ b ≤ a ∨ !tyOk ty ∨ ty = 45 then (s, "bad-op") else
-      let (st, r) := run (.ref a b ty); ({ s with st := st }, showFlag r)
-    | _, _, _ => (s, "bad-op")
-  | ["delref", a, b, ty] =>
-    match a.toNat?, b.toNat?, ty.toNat? with
-    | some a, some b, some ty =>
-      if a = 0 ∨ b = 0 ∨ !tyOk ty then (s, "bad-op") else
-      let (st, r) := run (.delref a b ty); ({ s with st := st }, showFlag r)
-    | _, _, _ => (s, "bad-op")
-  | ["delnode", id, dtr] =>
-    match id.toNat?, parseBool? dtr with
-    | some id, some dtr =>
-      if id = 0 then (s, "bad-op") else
-      let (st, r) := run (.delnode id dtr); ({ s with st := st }, showFlag r)
-    | _, _ => (s, "bad-op")
   | ["browse", n, dir, ty, sub, mask, rmask, req] =>
     match n.toNat?, dir.toNat?, ty.toNat?, parseBool? sub, mask.toNat?, rmask.toNat?, req.toNat? with
     | some n, some dir, some ty, some sub, some mask, some rmask, some req =>
@@ -129,6 +198,12 @@ def dstep (s : DState) (toks : List String) : DState × String :=
       | (_, .fault) => (s, "err BadNothingToDo")
       | _ => (s, "bad-op")
     | none => (s, "bad-op")
+  | t :: _ =>
+    if isMutOp t then
+      match parseMut toks with
+      | some m => let (st, r) := run (.mutate m); ({ s with st := st }, showFlag r)
+      | none => (s, "bad-op")
+    else (s, "bad-op")
   | _ => (s, "bad-op")
 
 def driver : Driver := { σ := DState, init := { st := init, exact := [] }, step := dstep }
